@@ -11,7 +11,7 @@ def atomOf (t : Tok) : Option Atom := do
   match ← t.list? with
   | [k, n, e, as, p] =>
       pure { key := ← k.int?, name := ← n.str?, elem := ← e.int?,
-             attrs := ← (← as.list?).mapM attrOf, ptm := (← p.int?) != 0 }
+             attrs := ← (← as.list?).mapM attrOf, ptm := (← p.optInt?).map (· != 0) }
   | _ => none
 
 def pairOf (t : Tok) : Option (Int × Int) := do
@@ -34,7 +34,7 @@ def graphOf (ns es : Tok) : Option Graph := do
 def encAttr (p : String × String) : String := encList [encStr p.1, encStr p.2]
 
 def encAtom (a : Atom) : String :=
-  encList [encInt a.key, encStr a.name, encInt a.elem, encList (a.attrs.map encAttr), encBool a.ptm]
+  encList [encInt a.key, encStr a.name, encInt a.elem, encList (a.attrs.map encAttr), encOptInt (a.ptm.map fun b => if b then 1 else 0)]
 
 def encPair (p : Int × Int) : String := encList [encInt p.1, encInt p.2]
 
